@@ -106,6 +106,10 @@ def b_mathgeneral(V, cfg):
 
 def b_concat(V, cfg):
     import pymoto as pym
+    if cfg.get("mixed"):
+        # a real vector first, a complex one after it: the joined vector is complex (NumPy promotion), nothing is dropped
+        sigs = [pym.Signal("a", V.reals("a", 2)), pym.Signal("b", V.cplxs("b", 2))]
+        return Setup(pym.ConcatSignal(sigs), sigs)
     sigs = [pym.Signal("a", V.reals("a", 2)), pym.Signal("b", V.reals("b", 3)), pym.Signal("c", V.reals("c", 1))]
     return Setup(pym.ConcatSignal(sigs), sigs)
 
@@ -710,6 +714,7 @@ def module_grid(tier):
         if k != "trig1":
             add("mathgeneral", k, expr=k)
     add("concat", "3sig")
+    add("concat", "real-then-cplx", mixed=True, logical_dtype=True, c01_only=True)
     for mode in ("objective", "min", "max"):
         add("scaling", mode, mode=mode)
     add("scaling", "objective-array", mode="objective", array=True)
